@@ -71,6 +71,42 @@ fn nf(v: &RVal) -> String {
 	s
 }
 
+/// Canonical rendering of the number a JSON number literal denotes (exact decimal arithmetic on the
+/// text): two literals get the same rendering iff they denote the same number.
+fn num_norm(s: &str) -> String {
+	let (neg, rest) = match s.strip_prefix('-') {
+		Some(r) => (true, r),
+		None => (false, s),
+	};
+	let (mant, exp) = match rest.find(|c| c == 'e' || c == 'E') {
+		Some(i) => (&rest[..i], rest[i + 1..].trim_start_matches('+').parse::<i128>().unwrap_or(if rest[i + 1..].starts_with('-') { i128::MIN / 4 } else { i128::MAX / 4 })),
+		None => (rest, 0),
+	};
+	let (int, frac) = match mant.find('.') {
+		Some(i) => (&mant[..i], &mant[i + 1..]),
+		None => (mant, ""),
+	};
+	let digits: String = format!("{}{}", int, frac);
+	let mut point = int.len() as i128 + exp;
+	let stripped = digits.trim_start_matches('0');
+	point -= (digits.len() - stripped.len()) as i128;
+	let stripped = stripped.trim_end_matches('0');
+	if stripped.is_empty() {
+		return "0".to_string();
+	}
+	format!("{}0.{}e{}", if neg { "-" } else { "" }, stripped, point)
+}
+
+/// The same tree with every number replaced by the canonical rendering of the number it denotes.
+fn numeric_twin(v: &RVal) -> RVal {
+	match v {
+		RVal::Num(s) => RVal::Num(num_norm(s)),
+		RVal::Arr(a) => RVal::Arr(a.iter().map(numeric_twin).collect()),
+		RVal::Obj(e) => RVal::Obj(e.iter().map(|(k, v)| (k.clone(), numeric_twin(v))).collect()),
+		x => x.clone(),
+	}
+}
+
 fn c15_pair(rep: &mut Report, fam: &str, ra: &RVal, rb: &RVal, a: &Value, b: &Value, want: bool, full: bool) {
 	rep.evaluations += 1;
 	let case = || json!({"sub": "unordered-pair", "a": doc_of(ra), "b": doc_of(rb)});
@@ -81,6 +117,12 @@ fn c15_pair(rep: &mut Report, fam: &str, ra: &RVal, rb: &RVal, a: &Value, b: &Va
 			return;
 		}
 	};
+	if got && !want && nf(&numeric_twin(ra)) == nf(&numeric_twin(rb)) {
+		// the two differ in the spelling of numbers only: whether such numbers are equal is not C15's
+		// business (the crate compares spellings; a tree comparing them as numbers would not break C15)
+		rep.count("pairs_equal_up_to_number_spelling_reported_equal(noted)", 1);
+		return;
+	}
 	if got != want {
 		rep.violation(
 			if want { "C15:reports-unequal" } else { "C15:reports-equal" },
@@ -676,7 +718,13 @@ fn c14_pair(rep: &mut Report, fam: &str, a: &Value, b: &Value, content_equal: bo
 			return;
 		}
 	};
-	if eq != content_equal {
+	// values that differ in the spelling of numbers only: the property asks that equality, order and
+	// hash agree with each other, not that such numbers be unequal (the checks below still apply)
+	let spelling_only = eq && !content_equal && numeric_twin(&to_rval(a)) == numeric_twin(&to_rval(b));
+	if spelling_only {
+		rep.count("values_equal_up_to_number_spelling_compared_equal(noted)", 1);
+	}
+	if eq != content_equal && !spelling_only {
 		rep.violation(
 			if content_equal { "C14:equal-content-not-eq" } else { "C14:different-content-eq" },
 			format!("[{}] values with {} content: == gives {}", fam, if content_equal { "identical" } else { "different" }, eq),
@@ -1228,6 +1276,63 @@ pub fn run_c14(cfg: &Config) -> i32 {
 			rvals.push(RVal::Obj(vec![("n".to_string(), RVal::Num(x.to_string()))]));
 		}
 		total.merge(order_pool("number-pool-order-family", &rvals));
+
+		// (b3) the same over containers of very different sizes (0, 1, 2 and around 64 / 128 members)
+		//      filled with one of two values, next to short containers that lie between them in the
+		//      lexicographic order: an order that switches criterion with the size is not transitive
+		let mut rvals: Vec<RVal> = Vec::new();
+		let num = |x: usize| RVal::Num(x.to_string());
+		for n in [0usize, 1, 2, 63, 64, 65, 66, 129, 130] {
+			for fill in [1usize, 2] {
+				if n == 0 && fill == 2 {
+					continue;
+				}
+				rvals.push(RVal::Arr((0..n).map(|_| num(fill)).collect()));
+				rvals.push(RVal::Obj((0..n).map(|j| (format!("k{:03}", j), num(fill))).collect()));
+				rvals.push(RVal::Str(if fill == 1 { "a" } else { "b" }.repeat(n)));
+			}
+		}
+		for short in [vec![1usize, 5], vec![2], vec![1, 1, 9], vec![2, 0], vec![1, 2]] {
+			rvals.push(RVal::Arr(short.iter().map(|&x| num(x)).collect()));
+			rvals.push(RVal::Obj(short.iter().enumerate().map(|(j, &x)| (format!("k{:03}", j), num(x))).collect()));
+			rvals.push(RVal::Obj(short.iter().enumerate().map(|(j, &x)| (format!("k{:03}", j + 1), num(x))).collect()));
+			rvals.push(RVal::Str(short.iter().map(|&x| ["a", "a", "b", "c", "c", "e", "e", "e", "e", "z"][x]).collect::<String>()));
+		}
+		total.merge(order_pool("size-mixed-containers-order-family", &rvals));
+	}
+
+	// (f2) containers of more than 65,536 members against copies that differ in exactly one member beyond
+	//      position 65,535 (a scalar, a nested array, a nested object, a key), and against themselves
+	if !cfg.san && !cfg!(miri) {
+		let rep = parallel(cfg.threads.min(4), 4, |which| {
+			let mut rep = Report::new();
+			let n = 65_536 + 40 + which;
+			let at = [65_536usize, 65_537, n - 1, 65_540][which];
+			let base_o: Vec<(String, RVal)> = (0..n).map(|j| (format!("k{}", j), if j % 1000 == 7 || j == at { RVal::Arr(vec![RVal::Num("1".into())]) } else { RVal::Num((j % 10).to_string()) })).collect();
+			let base_a: Vec<RVal> = base_o.iter().map(|e| e.1.clone()).collect();
+			let (vo, va) = (from_rval(&RVal::Obj(base_o.clone())), from_rval(&RVal::Arr(base_a.clone())));
+			let variants: [RVal; 4] = [RVal::Arr(vec![RVal::Num("2".into())]), RVal::Obj(vec![("x".into(), RVal::Null)]), RVal::Num("77".into()), RVal::Arr(vec![RVal::Num("1".into()), RVal::Null])];
+			for (vi, var) in variants.iter().enumerate() {
+				let mut o2 = base_o.clone();
+				o2[at].1 = var.clone();
+				let mut a2 = base_a.clone();
+				a2[at] = var.clone();
+				let (wo, wa) = (from_rval_push(&RVal::Obj(o2)), from_rval(&RVal::Arr(a2)));
+				let desc = || json!({"sub": "huge-pair", "members": n, "position": at, "variant": vi});
+				c14_pair(&mut rep, "containers-beyond-65536-members", &vo, &wo, false, &desc);
+				c14_pair(&mut rep, "containers-beyond-65536-members", &va, &wa, false, &desc);
+				rep.distinct_by_construction(2);
+			}
+			let mut o3 = base_o.clone();
+			o3[at].0 = "other".into();
+			let desc = || json!({"sub": "huge-pair", "members": n, "position": at, "variant": "key"});
+			c14_pair(&mut rep, "containers-beyond-65536-members", &vo, &from_rval(&RVal::Obj(o3)), false, &desc);
+			c14_pair(&mut rep, "containers-beyond-65536-members", &vo, &from_rval_push(&RVal::Obj(base_o.clone())), true, &desc);
+			c14_pair(&mut rep, "containers-beyond-65536-members", &va, &va.clone(), true, &desc);
+			rep.max("widest_compared_container", n as u64);
+			rep
+		});
+		total.merge(rep);
 	}
 
 	// (c) random triples of related values
